@@ -97,7 +97,7 @@ def check_image(ctx, data):
             if r is not None:
                 ext.add((r.extent, r.size))
         for p in inn:
-            r = it.entries.get(p) if it else None
+            r = it.entries.get(m.phys('iso', p)) if it else None
             if r is not None and not r.parts:
                 ext.add((r.extent, r.size))
         if jn and inn:
